@@ -161,12 +161,14 @@ class GlobalModelRepository:
             raise OSError(errno.ENOENT, os.strerror(errno.ENOENT), filename_pattern)
         loaded_models = []
         for filename in filenames:
-            the_metamodel = metamodel_for_file_or_default_metamodel(
+            # (the default stays the importing model's meta-model for every
+            # file, whatever language an earlier file belongs to)
+            file_metamodel = metamodel_for_file_or_default_metamodel(
                 filename, the_metamodel
             )
             loaded_models.append(
                 self.load_model(
-                    the_metamodel,
+                    file_metamodel,
                     filename,
                     is_main_model,
                     encoding=encoding,
